@@ -571,7 +571,7 @@ func c12HandlerWiring(c *Ctx) {
 		good := len(vs) == 1
 		how := ""
 		if good {
-			b, cf, ok := fieldLoad(strip(vs[0]))
+			b, cf, ok := fieldLoad(localVal(peelCopy(vs[0])))
 			good = ok && cfg != nil && b == cfg
 			if ok {
 				how = cf.Name()
